@@ -18,33 +18,17 @@ def _extract_tests(text):
     return re.findall(r"```\n(.*?)```", text, re.S)
 
 
-def kani_replay(ROOT, BUILD, ENV, u, obl, run_group, timeout=1800):
-    lines = []
-    unit = obl["unit"]
+def replay_tests_path(BUILD, unit):
+    return os.path.join(BUILD, unit, "replay_tests.rs")
+
+
+def _native_run(ROOT, BUILD, ENV, u, unit, tests, run_group, tag, timeout):
+    """append nothing to the crate: contracts.rs ends with
+    `#[cfg(verif_replay)] include!("/verif/build/<unit>/replay_tests.rs");`"""
     crate = os.path.join(ROOT, u["crate"])
-    target = os.path.join(BUILD, f"target-{unit}")
-    env = dict(ENV)
-    env["CARGO_TARGET_DIR"] = target
-    hname = u.get("harness_mod", "contracts") + "::" + obl["harness"]
-    logfile = os.path.join(BUILD, unit, f"playback-{obl['name']}.log")
-    cmd = ["cargo", "kani"] + list(u.get("kani_flags", [])) + [
-        "-Z", "concrete-playback", "--concrete-playback=print", "--output-format", "terse",
-        "--exact", "--harness", hname]
-    rc, to = run_group(cmd, crate, env, timeout, logfile)
-    text = open(logfile).read()
-    tests = [t for t in _extract_tests(text) if "Check for `cover`" not in t]
-    lines.append("# counterexample generation: " + " ".join(cmd))
-    if to or not tests:
-        lines.append("# Kani produced no concrete playback test (timeout or no counterexample values)")
-        return False, lines
-    # native run
-    rcrate = os.path.join(BUILD, "replay", f"{unit}-crate")
-    shutil.rmtree(rcrate, ignore_errors=True)
-    shutil.copytree(crate, rcrate, ignore=shutil.ignore_patterns("target"))
-    modfile = os.path.join(rcrate, "src", u.get("harness_mod", "contracts").replace("::", "/") + ".rs")
     names = []
-    with open(modfile, "a") as f:
-        f.write("\n// ---- appended by tools/replay.py: Kani concrete playback tests\n")
+    with open(replay_tests_path(BUILD, unit), "w") as f:
+        f.write("// written by tools/replay.py: Kani concrete playback tests\n")
         for t in tests:
             m = re.search(r"fn (kani_concrete_playback_\w+)", t)
             if m and m.group(1) not in names:
@@ -54,36 +38,98 @@ def kani_replay(ROOT, BUILD, ENV, u, obl, run_group, timeout=1800):
     env2["CARGO_TARGET_DIR"] = os.path.join(BUILD, f"target-replay-{unit}")
     env2["RUSTFLAGS"] = ENV.get("RUSTFLAGS", "") + " --cfg verif_replay"
     env2["RUST_BACKTRACE"] = "0"
-    plog = os.path.join(BUILD, unit, f"playback-native-{obl['name']}.log")
+    for k, v in u.get("env", {}).items():
+        env2[k] = v
+    plog = os.path.join(BUILD, unit, f"playback-native-{tag}.log")
     pcmd = ["cargo", "kani", "playback", "-Z", "concrete-playback"] + list(u.get("kani_flags", [])) + \
            ["--", "kani_concrete_playback", "--test-threads", "1"]
-    rc2, to2 = run_group(pcmd, rcrate, env2, timeout, plog)
-    ptext = open(plog).read()
+    run_group(pcmd, crate, env2, timeout, plog)
+    return pcmd, open(plog).read()
+
+
+def _judge(ptext):
     failed = re.findall(r"^test (\S+) \.\.\. FAILED", ptext, re.M)
     passed = re.findall(r"^test (\S+) \.\.\. ok", ptext, re.M)
-    # a panic raised by the playback runtime itself (values left over / exhausted) means the native
-    # run took a different path from the verifier's (inert stub): that is not a reproduction
+    msgs = {}
     unfaithful = []
     for m in re.finditer(r"^---- (\S+) stdout ----\n(.*?)(?=^----|\Z|^failures:)", ptext, re.S | re.M):
+        msgs[m.group(1)] = " ".join(m.group(2).split())[:500]
+        # a panic raised by the playback runtime itself (values left over / exhausted) means the native run
+        # took a different path from the verifier's (inert stub): that is not a reproduction
         if "concrete_playback.rs" in m.group(2):
             unfaithful.append(m.group(1))
     failed = [f for f in failed if f not in unfaithful]
-    confirmed = len(failed) > 0
-    if unfaithful:
-        lines.append(f"# {len(unfaithful)} playback test(s) diverged from the verifier's path (stubbed dependency inert natively): not counted")
-    lines.append("# native replay: " + " ".join(pcmd) + "   (RUSTFLAGS adds --cfg verif_replay; crate copy: " + rcrate + ")")
-    lines.append(f"# native replay result: {len(failed)} test(s) panic on the real code, {len(passed)} do not")
-    for m in re.finditer(r"^---- (\S+) stdout ----\n(.*?)(?=^----|\Z|^failures:)", ptext, re.S | re.M):
-        lines.append(f"#   {m.group(1)}: " + " ".join(m.group(2).split())[:400])
-    if not failed and not passed:
-        lines.append("# native replay did not run; tail of its log:")
-        lines += ["#   " + l for l in ptext.splitlines()[-25:]]
-    lines.append("")
-    lines.append("// ===== replayable unit tests (Kani concrete playback), harness source: " + os.path.relpath(modfile, BUILD))
-    lines.append(f"// REPLAY-META unit={unit} harness_mod={u.get('harness_mod', 'contracts')} flags={' '.join(u.get('kani_flags', []))}")
+    return failed, passed, unfaithful, msgs
+
+
+def kani_replay_many(ROOT, BUILD, ENV, u, obls, run_group, timeout=2400):
+    """-> {obligation name: (confirmed, [lines])}. One Kani invocation regenerates the counterexamples
+    of all failing harnesses of the unit (in parallel), one native run executes all of them."""
+    unit = obls[0]["unit"]
+    crate = os.path.join(ROOT, u["crate"])
+    env = dict(ENV)
+    env["CARGO_TARGET_DIR"] = os.path.join(BUILD, f"target-{unit}")
+    for k, v in u.get("env", {}).items():
+        env[k] = v
+    # --concrete-playback is incompatible with --jobs: one process per harness, each with its own target dir
+    import threading
+    texts = {}
+
+    def gen(i, o):
+        e = dict(env)
+        e["CARGO_TARGET_DIR"] = os.path.join(BUILD, f"target-{unit}-pb{i}")
+        lf = os.path.join(BUILD, unit, f"playback-gen-{o['name']}.log")
+        c = ["cargo", "kani"] + list(u.get("kani_flags", [])) + [
+            "-Z", "concrete-playback", "--concrete-playback=print", "--output-format", "terse", "--exact",
+            "--harness", u.get("harness_mod", "contracts") + "::" + o["harness"]]
+        run_group(c, crate, e, timeout, lf)
+        texts[o["name"]] = open(lf).read()
+
+    cmd = ["cargo", "kani"] + list(u.get("kani_flags", [])) + [
+        "-Z", "concrete-playback", "--concrete-playback=print", "--output-format", "terse", "--exact", "--harness", "<harness>"]
+    ths = [threading.Thread(target=gen, args=(i, o)) for i, o in enumerate(obls)]
+    for t in ths:
+        t.start()
+    for t in ths:
+        t.join()
+    text = "\n".join(texts.values())
+    tests = [t for t in _extract_tests(text) if "Check for `cover`" not in t]
+    out = {}
+    by = {}
     for t in tests:
-        lines.append(t)
-    return confirmed, lines
+        m = re.search(r"Test generated for harness `([^`]+)`", t)
+        if m:
+            by.setdefault(m.group(1).split("::")[-1], []).append(t)
+    ptext, pcmd = "", []
+    if tests:
+        pcmd, ptext = _native_run(ROOT, BUILD, ENV, u, unit, tests, run_group, "gen", timeout)
+    failed, passed, unfaithful, msgs = _judge(ptext)
+    for o in obls:
+        lines = ["# counterexample generation: " + " ".join(cmd)]
+        mine = by.get(o["harness"], [])
+        if not mine:
+            lines.append("# Kani produced no concrete playback test for this harness (timeout or no counterexample values)")
+            out[o["name"]] = (False, lines)
+            continue
+        tag = "kani_concrete_playback_" + o["harness"] + "_"
+        f_me = [f for f in failed if tag in f]
+        p_me = [f for f in passed if tag in f]
+        u_me = [f for f in unfaithful if tag in f]
+        lines.append("# native replay: " + " ".join(pcmd) + "   (RUSTFLAGS adds --cfg verif_replay: vcoll wraps the real std collections)")
+        lines.append(f"# native replay result: {len(f_me)} test(s) breach the contract on the real code, {len(p_me)} do not"
+                     + (f", {len(u_me)} diverged from the verifier's path (stubbed dependency inert natively; not counted)" if u_me else ""))
+        for n, msg in msgs.items():
+            if tag in n:
+                lines.append(f"#   {n}: {msg}")
+        if not (f_me or p_me or u_me):
+            lines.append("# native replay did not run; tail of its log:")
+            lines += ["#   " + l for l in ptext.splitlines()[-25:]]
+        lines.append("")
+        lines.append("// ===== replayable unit tests (Kani concrete playback) for harness " + o["harness"])
+        lines.append(f"// REPLAY-META unit={unit}")
+        lines += mine
+        out[o["name"]] = (len(f_me) > 0, lines)
+    return out
 
 
 def rerun(ROOT, BUILD, ENV, path, run_group):
@@ -92,10 +138,10 @@ def rerun(ROOT, BUILD, ENV, path, run_group):
     sys.path.insert(0, os.path.join(ROOT, "tools"))
     import registry
     text = open(path).read()
-    m = re.search(r"REPLAY-META unit=(\S+) harness_mod=(\S+) flags=(.*)", text)
+    m = re.search(r"REPLAY-META unit=(\S+)", text)
     if not m:
         print("replay file carries no executable test (verifier gave no counterexample); verifier output is inside the file")
-        print(text[:4000])
+        print(text[:6000])
         return 1
     unit = m.group(1)
     u = registry.UNITS[unit]
@@ -104,24 +150,10 @@ def rerun(ROOT, BUILD, ENV, path, run_group):
         import slicer
         slicer.run_unit(unit, u, registry.REPO, os.path.join(BUILD, unit, "gen"))
     shutil.copyfile(os.path.join(registry.REPO, "Cargo.lock"), os.path.join(crate, "Cargo.lock"))
-    rcrate = os.path.join(BUILD, "replay", f"{unit}-crate")
-    shutil.rmtree(rcrate, ignore_errors=True)
-    shutil.copytree(crate, rcrate, ignore=shutil.ignore_patterns("target"))
-    modfile = os.path.join(rcrate, "src", m.group(2).replace("::", "/") + ".rs")
     tests = re.findall(r"(/// Test generated for harness.*?\n}\n)", text, re.S)
-    with open(modfile, "a") as f:
-        for t in tests:
-            f.write(t + "\n")
-    env2 = dict(ENV)
-    env2["CARGO_TARGET_DIR"] = os.path.join(BUILD, f"target-replay-{unit}")
-    env2["RUSTFLAGS"] = ENV.get("RUSTFLAGS", "") + " --cfg verif_replay"
-    plog = os.path.join(BUILD, unit, "playback-rerun.log")
-    os.makedirs(os.path.dirname(plog), exist_ok=True)
-    pcmd = ["cargo", "kani", "playback", "-Z", "concrete-playback"] + list(u.get("kani_flags", [])) + \
-           ["--", "kani_concrete_playback", "--test-threads", "1"]
-    run_group(pcmd, rcrate, env2, 1800, plog)
-    ptext = open(plog).read()
+    os.makedirs(os.path.join(BUILD, unit), exist_ok=True)
+    pcmd, ptext = _native_run(ROOT, BUILD, ENV, u, unit, tests, run_group, "rerun", 2400)
     print(ptext[-6000:])
-    failed = re.findall(r"^test (\S+) \.\.\. FAILED", ptext, re.M)
-    print(f"replay: {len(failed)} test(s) reproduce the contract breach on the real code")
+    failed, passed, unfaithful, msgs = _judge(ptext)
+    print(f"replay: {len(failed)} test(s) reproduce the contract breach on the real code, {len(passed)} do not")
     return 1 if failed else 0
